@@ -1,4 +1,5 @@
 import RlModel.Model.Val
+import RlModel.Model.Heap
 /-
 Model of what ORDER BY / LIMIT / OFFSET and key-range scans do on the secondary (disk) engine
 (properties C12 and C13).  Everything here is executable and core-Lean only; the drivers
@@ -122,6 +123,16 @@ def topnExec {α} (cmp : α → α → Ordering) (n : Option Nat) (m : Nat) (xs 
   let cap := m + lim
   if cap * 24 > isizeMax then Out.panic "topn:capacity-overflow"
   else Out.ok (((topnState cmp cap xs).drop m).take lim)
+
+/-- top_n.rs with the REAL bounded binary heap (`Model/Heap.lean`): push every row, pop the
+greatest when the heap exceeds offset+limit, `into_sorted_vec`, skip/take. Same capacity check. -/
+def topnHeapExec {α} (cmp : α → α → Ordering) (n : Option Nat) (m : Nat) (xs : List α) : Out (List α) :=
+  let lim := n.getD usizeHalf
+  let cap := m + lim
+  if cap * 24 > isizeMax then Out.panic "topn:capacity-overflow"
+  else
+    let k := topnHeapState cmp cap xs
+    Out.ok ((((heapDrain (fun a b => cmp b a) k.length k).reverse).drop m).take lim)
 
 /-! ## Row-sets, memtable, concat and merge scans -/
 
